@@ -131,7 +131,8 @@ def run (s : Sexp) : String :=
       let mr := obsD (runDOps Quirks.none true true S dops)
       -- F-C13-3: read off the run of the model of the code as it is (`DRun.lateKnown`)
       let t3 := r.lateKnown
-      let trig := joinTrig [(trigReeval ops, "F-C13-1"),
+      -- F-C13-1 (a re-evaluated query object ranged over its cached domain) is repaired in /repo: no trigger
+      let trig := joinTrig [
         -- (F-C13-2, classes listed twice below T, and F-C13-4, an instance that died while an evaluation was suspended
         -- yielded as None, are repaired in /repo: no case is attributed to them any more)
         (t3, "F-C13-3")]
